@@ -131,6 +131,15 @@ def gen_exhaustive_n3(kind_patterns):
             edges = [(a, b, k) for (a, b), k in zip(pairs, choice) if k]
             yield from_spec(list(kinds), edges)
 
+def _n3_chunk(task):
+    kinds, a, b = task
+    pairs = [(x, y) for x in range(3) for y in range(3)]
+    out = []
+    for rest in itertools.product([None] + REDUCED, repeat=7):
+        edges = [(x, y, k) for (x, y), k in zip(pairs, (a, b) + rest) if k]
+        out.append(from_spec(list(kinds), edges))
+    return out
+
 def gen_random(rng):
     n = rng.randint(1, 8)
     b = Builder(n)
@@ -365,7 +374,11 @@ def gen_cases(ctx):
     graphs += list(gen_exhaustive_n2())
     if ctx.tier == "thorough":
         pats = [("struct",) * 3, ("enum", "struct", "newtype"), ("newtype", "enum", "struct")]
-        graphs += list(gen_exhaustive_n3(pats))
+        # the complete n = 3 enumeration (3 x 4^9 graphs), built on all cores: one task per (pattern, first two choices)
+        import multiprocessing as mp
+        tasks = [(kinds, a, b) for kinds in pats for a in [None] + REDUCED for b in [None] + REDUCED]
+        with mp.get_context("fork").Pool(min(14, os.cpu_count() or 1)) as pool:
+            for part in pool.map(_n3_chunk, tasks): graphs += part
     else:
         # a slice of the n = 3 space: random members of the reduced enumeration
         pairs = [(a, b) for a in range(3) for b in range(3)]
